@@ -194,7 +194,8 @@ def aligned_goals(q, pop, want_len=None, fields=("log_q", "log_prior", "log_like
         if k not in fields:
             continue
         v = pop.f.get(k, NONE)
-        out.append((f"{q}:C10:stored {k} of row i is {nm} evaluated at the coordinates of row i", arr_eq_goal(v, rowwise(k, f, x)) if isinstance(v, Arr) else z3.BoolVal(False)))
+        tags = "C10:C17" if k == "log_prior" else "C10"      # C17: the likelihood sees the prior of exactly the points it is given
+        out.append((f"{q}:{tags}:stored {k} of row i is {nm} evaluated at the coordinates of row i", arr_eq_goal(v, rowwise(k, f, x)) if isinstance(v, Arr) else z3.BoolVal(False)))
     return out
 
 
